@@ -1,4 +1,7 @@
+#[cfg(not(kani))]
 use std::collections::HashMap;
+#[cfg(kani)]
+use crate::helpers::vmap::HashMap;
 
 use serde::{Deserialize, Serialize};
 use wasm_bindgen::prelude::*;
